@@ -78,6 +78,15 @@ def convert_op(sym, form, N, exc):
             view = petl.convert(table, {'v': conv, 'w': conv2}, **kw)
         elif form == 'pass_row':
             view = petl.convert(table, 'v', lambda v, row: conv(row['v']), pass_row=True, **kw)
+        elif form == 'pass_row_short':
+            # rows 0.. are short (no 'w'); the converter reads the absent field through the row: it is None, never errorvalue
+            table = [['t', 'v', 'w']] + [r[:2] for r in rows]
+
+            def conv_short(v, row):
+                if row['w'] is not None:
+                    return ('saw', row['w'])
+                return conv(v)
+            view = petl.convert(table, 'v', conv_short, pass_row=True, **kw)
         elif form == 'where':
             skip = [i % 2 == 1 for i in range(n)]
             view = petl.convert(table, 'v', conv, where=lambda rec: rec['v'] % 2 == 0, **kw)
@@ -101,6 +110,9 @@ def convert_op(sym, form, N, exc):
     check((raised is not None) == exp_raise, 'exception surfaced / not surfaced', policy, fails, fails2, raised)
     check(len(got) - 1 == len(exp), 'rows delivered before the failure / in total', policy, fails, got)
     for r, (i, f1, f2) in zip(got[1:], exp):
+        if form == 'pass_row_short':
+            check(len(r) == 2 and r[0] == 'T%d' % i, 'short row changed shape', r)
+            r = r + (100 + i,)
         check(len(r) == 3 and r[0] == 'T%d' % i, 'untouched cell changed', r)
         for cellv, f, okv, raw in ((r[1], f1, ('ok', i), i), (r[2], f2, ('ok2', 100 + i), 100 + i)):
             if form != 'twofields' and raw >= 100:
@@ -261,8 +273,8 @@ def jobs(tier):
     excs = ['ValueError', 'KeyError', 'IndexError'] if q else list(EXC)
     out = []
     for exc in excs:
-        for form in ('value', 'twofields', 'pass_row', 'where', 'suffix'):
-            if q and exc != 'ValueError' and form in ('pass_row', 'suffix'):
+        for form in ('value', 'twofields', 'pass_row', 'pass_row_short', 'where', 'suffix'):
+            if q and exc != 'ValueError' and form in ('pass_row', 'pass_row_short', 'suffix'):
                 continue
             out.append(dict(name='convert-%s/%s' % (form, exc), func='convert_op',
                             params=dict(form=form, N=N - (form == 'twofields'), exc=exc), budget=B))
